@@ -82,6 +82,14 @@ impl ShmWriter {
             // Note that wiping the file sets the version to 0, which is used to indicate the
             // readers that the memory segment is not usable yet.
             ShmWriter::wipe(path, segsize)?
+        } else {
+            // The header is valid, but the file may have been cut short of the segment size
+            // (the header only declares it). Stores into the mapping beyond the end of the file
+            // are never written back: extend the file in place, keeping its content and inode.
+            let file = fs::OpenOptions::new().write(true).open(path)?;
+            if file.metadata()?.len() < segsize as u64 {
+                file.set_len(segsize as u64)?;
+            }
         }
 
         // Memory map the file.
